@@ -10,6 +10,10 @@ def run(tier, seed):
 
     # proved part: the label -> line-number loop of remove_labels, for texts of every length
     run_into(rep)
+    from contracts.unused_labels_c import run_into as run_unused
+
+    # proved part: remove_unused_labels (labelled mode) never removes a label some line refers to, for texts of every length
+    run_unused(rep)
     replay_known(rep, "C05")
     q = tier == "quick"
     run_bounded(rep, "C05", [("calls", {"calls_focus": True, "max_funcs": 3}, "labels", 900 if q else 15000),
@@ -21,6 +25,8 @@ def run(tier, seed):
               "spec/ic10_machine.py tokeniser")
     rep.assume("proved part (loop contract on the real statements of remove_labels): str operations (split, strip, endswith, slicing, truthiness) and membership in keep_labels are pure functions of their receiver, modelled as uninterpreted functions named after the operation; code.splitlines() is a list of symbolic length; integers mathematical",
                "the kept-line count K is defined by recursion; its unfolding is used at the loop index and in two separately proved induction lemmas only",
-               "the substitution phase of remove_labels and remove_unused_labels are regular-expression rewrites of whole lines: outside SMT reach, bounded only",
+               "for-each rule (remove_unused_labels, inner loop over a set): `for x in S: if c(x): U.add(x)` with U != S and c not reading U is summarised as U' = U | {x in S : c(x)}; set difference is axiomatised pointwise",
+               "the result of remove_unused_labels is read as the list `result` (the final '\\n'.join is not modelled)",
+               "the substitution phase of remove_labels is a regular-expression rewrite of whole lines: outside SMT reach, bounded only",
                "identifier collisions that are recorded known findings (prefix names, label text inside HASH(), f/fend) are excluded from generation")
     return rep.finish(min_obligations=1)
